@@ -1169,7 +1169,7 @@ func (x *gx) call(call *ast.CallExpr, s *gState) []gOut {
 			return one(s, gVal{})
 		case "subparse":
 			return x.subparse(call, f, s)
-		case "listhelper", "voidhelper", "tuplehelper":
+		case "listhelper", "voidhelper", "tuplehelper", "nodehelper":
 			return x.inline(call, f, s)
 		}
 		x.issue("call of %s at %s: effect on the token stream not classified", f.Name(), x.c.pos(call.Pos()))
@@ -1451,6 +1451,41 @@ func (c *Ctx) parserRoles() map[*types.Func]string {
 	if a != nil && a.expectSemi != nil {
 		semiObj = a.expectSemi.Object()
 	}
+	// a sequencing helper: an unexported method that returns a node it did not build itself (no node literal in its
+	// body) and is only ever called directly — `parseOperand(level)` = advance + sub-parse, a function-body helper. It
+	// is walked in the caller's state like the list helpers, so that its advances and sub-parses land in the caller's
+	// grammar.
+	buildsNode := map[*types.Func]bool{}
+	usedAsValue := map[*types.Func]bool{}
+	for _, fd := range decls {
+		f := objOf(fd)
+		if f == nil || fd.Body == nil {
+			continue
+		}
+		calledIdents := map[*ast.Ident]bool{}
+		ast.Inspect(fd.Body, func(n ast.Node) bool {
+			switch v := n.(type) {
+			case *ast.CompositeLit:
+				if tv, ok := info.Types[v]; ok {
+					if nt := namedOf(tv.Type); nt != nil && nt.Obj().Pkg() != nil && nt.Obj().Pkg().Path() == modPath+"/ast" {
+						buildsNode[f] = true
+					}
+				}
+			case *ast.CallExpr:
+				switch fn := ast.Unparen(v.Fun).(type) {
+				case *ast.Ident:
+					calledIdents[fn] = true
+				case *ast.SelectorExpr:
+					calledIdents[fn.Sel] = true
+				}
+			case *ast.Ident:
+				if g, ok := info.Uses[v].(*types.Func); ok && !calledIdents[v] {
+					usedAsValue[g] = true
+				}
+			}
+			return true
+		})
+	}
 	for _, fd := range decls {
 		f := objOf(fd)
 		if f == nil || f == advance {
@@ -1458,6 +1493,8 @@ func (c *Ctx) parserRoles() map[*types.Func]string {
 		}
 		sig := f.Type().(*types.Signature)
 		switch {
+		case reaches[f] && fd.Recv != nil && !f.Exported() && !buildsNode[f] && !usedAsValue[f] && sig.Results().Len() == 1 && (isNodeIface(sig.Results().At(0).Type()) || isNodePtr(sig.Results().At(0).Type())) && expectObj != types.Object(f) && semiObj != types.Object(f):
+			roles[f] = "nodehelper"
 		case expectObj != nil && types.Object(f) == expectObj:
 			roles[f] = "expect"
 		case semiObj != nil && types.Object(f) == semiObj:
